@@ -159,6 +159,40 @@ pub fn run(ctx: &mut Ctx) {
         }
         ctx.out.stat_n(&format!("c10.ms.{}", w.desc), t0.elapsed().as_millis() as u64);
     }
+    // an archive with full attributes that was then modified in place (one file added through MutableArchive): the files
+    // that were not touched still verify, and altering their stored bytes is still detected
+    for ver in [FormatVersion::V1, FormatVersion::V3] {
+        let mut rng = ctx.rng.clone();
+        let Some(w) = build(Kind::Attributes, ver, &mut rng, dir.path()) else { continue };
+        ctx.rng = rng;
+        let p = dir.path().join("mod.mpq");
+        std::fs::write(&p, &w.bytes).ok();
+        let added: Vec<u8> = text(900, 9);
+        let okm = (|| -> Result<(), String> { let mut m = wow_mpq::MutableArchive::open(&p).map_err(|e| e.to_string())?; m.add_file_data(&added, "added.txt", wow_mpq::AddFileOptions::new()).map_err(|e| e.to_string())?; m.flush().map_err(|e| e.to_string())?; Ok(()) })();
+        if let Err(e) = okm { ctx.out.known("modification-of-attributes-archive-fails", &format!("{ver:?}: {e}")); continue; }
+        let mut w2 = World { bytes: std::fs::read(&p).unwrap_or_default(), files: w.files.clone(), kind: Kind::Attributes, regions: w.regions.clone(), desc: format!("Attributes {ver:?} after in-place add"), sig_pos: 0 };
+        w2.files.insert("added.txt".into(), added.clone());
+
+        match std::panic::catch_unwind(|| observe(&w2, &p, None)) {
+            Ok(Ok(wrong)) if wrong.is_empty() => { ctx.out.oracle(true, "", ""); ctx.out.stat("c10.intact_verifies.after_modification"); }
+            Ok(Ok(wrong)) => { ctx.out.oracle(false, "intact-archive-reads-wrong-content", &format!("{}: {:?}", w2.desc, wrong)); continue; }
+            Ok(Err(e)) => { ctx.out.oracle(false, "intact-archive-fails-verification", &format!("{}: {e}", w2.desc)); continue; }
+            Err(_) => { ctx.out.oracle(false, "verification-panics", &format!("{} intact", w2.desc)); continue; }
+        }
+        // alter stored bytes of untouched files (their positions did not move: modification appends)
+        for (lo, hi, what) in w.regions.iter().filter(|r| r.2 != "(attributes)" && r.1 > r.0) {
+            for off in [*lo, (*lo + *hi) / 2, *hi - 1] {
+                let mut b = w2.bytes.clone(); if off >= b.len() { continue; } b[off] ^= 0x21;
+                std::fs::write(&p, &b).ok();
+                let case = format!("{}: one byte at offset {off} ({what})", w2.desc);
+                match std::panic::catch_unwind(|| observe(&w2, &p, Some(what.as_str()))) {
+                    Err(_) | Ok(Err(_)) => { ctx.out.oracle(true, "", ""); ctx.out.stat("c10.detected.after_modification"); }
+                    Ok(Ok(wrong)) if wrong.is_empty() => { ctx.out.oracle(true, "", ""); ctx.out.stat("c10.harmless"); }
+                    Ok(Ok(wrong)) => ctx.out.oracle(false, "altered-file-passes-attribute-verification", &format!("{case}: wrong content in {:?}", wrong)),
+                }
+            }
+        }
+    }
     // signed byte strings x bit flips, signature block at positions inside / at / across digest-unit boundaries
     let n_str = if ctx.thorough { 14 } else { 5 };
     for k in 0..n_str {
